@@ -301,6 +301,15 @@ def _worker_init():
     warnings.filterwarnings('ignore')
 
 
+# The plans this worker PROCESS executed most recently (across chunks): when a violation does not
+# reproduce on its own in a fresh interpreter, the library under test may be keeping state between
+# runs (a module-level cache, a mutable default argument, ...); the runs that came before are then
+# part of the history that produced it, and become the `prelude` of the replay file.
+_HISTORY = []
+HISTORY_LEN = 64
+_PRELUDE_BUDGET = [3]      # violations per worker process that carry their history along
+
+
 def _run_chunk(args):
     """Worker: generate + execute a chunk of runs. Returns aggregated, compact results."""
     engine_name, prop, tier, items, resample = args
@@ -338,7 +347,11 @@ def _run_chunk(args):
                 out['nontrivial_digests'].add(res.plan_digest)
             out['violations'].append(
                 {'index': index, 'seed': seed, 'signature': res.signature, 'detail': res.detail,
-                 'plan': plan, 'log_digest': res.log_digest})
+                 'plan': plan, 'log_digest': res.log_digest,
+                 'prelude': None})
+            if _PRELUDE_BUDGET[0] > 0:
+                _PRELUDE_BUDGET[0] -= 1
+                out['violations'][-1]['prelude'] = [copy.deepcopy(h) for h in _HISTORY]
         elif res.verdict == 'blocked':
             out['blocked'][res.signature] += 1
         elif res.verdict == 'discard':
@@ -347,6 +360,8 @@ def _run_chunk(args):
             out['harness'].append(
                 {'index': index, 'seed': seed, 'signature': res.signature, 'detail': res.detail,
                  'plan': plan})
+        _HISTORY.append({'engine': engine_name, 'plan': plan})
+        del _HISTORY[:-HISTORY_LEN]
         # Determinism resample: same plan, same process, second execution.
         if resample and (index % resample == 0) and res.verdict in ('ok', 'violation'):
             res2 = execute_plan(engine, copy.deepcopy(plan), prop, tier)
@@ -578,16 +593,18 @@ def shrink(engine, plan, prop, tier, signature, max_exec=300, max_s=60, accept=N
     return best, n_exec[0]
 
 
-def fresh_verdict(engine_name, plan, prop, tier):
-    """Verdict of one plan executed in a fresh interpreter (no state from earlier runs)."""
+def fresh_verdict(engine_name, plan, prop, tier, prelude=None):
+    """Verdict of one plan executed in a fresh interpreter (no state from earlier runs), after
+    the plans of `prelude` (list of {'engine', 'plan'}) executed in that same interpreter."""
     import subprocess
     import tempfile
     with tempfile.NamedTemporaryFile('w', suffix='.json', delete=False, dir=str(scratch_base())) as f:
-        f.write(cjson({'engine': engine_name, 'property': prop, 'tier': tier, 'plan': plan}))
+        f.write(cjson({'engine': engine_name, 'property': prop, 'tier': tier, 'plan': plan,
+                       'prelude': prelude or []}))
         name = f.name
     try:
         p = subprocess.run([sys.executable, '-X', 'faulthandler', str(VERIF / 'vcheck.py'), '_exec',
-                            name], capture_output=True, text=True, timeout=300)
+                            name], capture_output=True, text=True, timeout=600)
         line = [l for l in p.stdout.splitlines() if l.startswith('{')]
         return json.loads(line[-1]) if line else {'verdict': 'harness_error', 'signature': None}
     finally:
@@ -632,6 +649,49 @@ def hermetic_shrink(engine, engine_name, plan, prop, tier, signature, max_exec=4
                     progress = True
                     break
     return best, n_exec[0]
+
+
+def execute_with_prelude(doc):
+    """Execute the prelude plans of a replay / exec document, then its plan; returns the Result
+    of the plan."""
+    from . import engines
+    prop, tier = doc['property'], doc.get('tier', 'quick')
+    for h in doc.get('prelude') or []:
+        execute_plan(engines.get(h['engine']), copy.deepcopy(h['plan']), prop, tier)
+    return execute_plan(engines.get(doc['engine']), doc['plan'], prop, tier)
+
+
+def find_prelude(engine_name, plan, prop, tier, signature, history, max_exec=40):
+    """A violation that does not reproduce on its own: look for the shortest suffix of the runs
+    that preceded it in its worker process after which it does (1, 2, 4, ... runs), then drop
+    every prelude run that is not needed. Every candidate runs in its own fresh interpreter.
+    Returns (prelude or None, number of executions)."""
+    n_exec = [0]
+
+    def fails(pre):
+        n_exec[0] += 1
+        v = fresh_verdict(engine_name, plan, prop, tier, prelude=pre)
+        return v['verdict'] == 'violation' and v['signature'] == signature
+    history = list(history or [])
+    k = 1
+    found = None
+    while k <= len(history) and n_exec[0] < max_exec:
+        if fails(history[-k:]):
+            found = history[-k:]
+            break
+        if k == len(history):
+            break
+        k = min(2 * k, len(history))
+    if found is None:
+        return None, n_exec[0]
+    i = 0
+    while i < len(found) and n_exec[0] < max_exec and len(found) > 1:
+        cand = found[:i] + found[i + 1:]
+        if fails(cand):
+            found = cand
+        else:
+            i += 1
+    return found, n_exec[0]
 
 
 # --------------------------------------------------------------------------------------------------
@@ -686,13 +746,17 @@ def repo_rev():
         return 'unknown'
 
 
-def write_replay(prop, engine_name, plan, signature, detail, log_digest, seed, tier):
+def write_replay(prop, engine_name, plan, signature, detail, log_digest, seed, tier, prelude=None):
     REPLAY_DIR.mkdir(exist_ok=True, parents=True)
     slug = ''.join(c if c.isalnum() else '-' for c in signature)[:70]
     path = REPLAY_DIR / ('%s-%s-%s.json' % (prop, slug, seed))
     doc = {'property': prop, 'engine': engine_name, 'tier': tier, 'plan': plan,
            'signature': signature, 'detail': detail, 'log_digest': log_digest,
            'repo_rev': repo_rev(), 'created_by_seed': seed}
+    if prelude:
+        # runs executed before the plan in the same interpreter: the library under test keeps state
+        # between runs of one process, and these earlier runs are part of the failing history
+        doc['prelude'] = prelude
     path.write_text(json.dumps(json.loads(cjson(doc)), indent=1))
     return path
 
@@ -701,8 +765,7 @@ def replay_file(path):
     """Execute a replay file. Returns (reproduced, result, doc)."""
     from . import engines
     doc = json.loads(Path(path).read_text())
-    engine = engines.get(doc['engine'])
-    res = execute_plan(engine, doc['plan'], doc['property'], doc.get('tier', 'quick'))
+    res = execute_with_prelude(doc)
     same = (res.verdict == 'violation' and res.signature == doc['signature'])
     same_log = (res.log_digest == doc.get('log_digest'))
     return same, same_log, res, doc
